@@ -201,7 +201,7 @@ def substring (arg : Value) : Res Value :=
             | .error e => .error e
             | .ok end_ =>
               if start > end_ || end_ > utf8Len subject then .error .outOfBoundsAccess
-              else match sliceBytes subject start (end_ - start) with
+              else match sliceBytes subject start end_ with
                 | some s => .ok (.string s)
                 | none => .error .outOfBoundsAccess
     | _ => .error (.panic cl!"builtin: args[i]")
